@@ -397,8 +397,57 @@ def array_index_rules(ctx, prefix="R1"):
            "that was replaced (and no KeyError tells), so array[i] != atom after array[i] = atom", loops[0].lineno)
 
 
+def setter_and_equality_rules(ctx, prefix="R1"):
+    """(1) the coordinates and the bond list that are assigned to a container have its number of atoms, whatever the kind of container: every
+    way through `__setattr__` that stores `_coord` has passed `value.shape[-2] == self._array_length` (and three columns), every way that
+    stores a BondList has passed the atom-count test; (2) two containers are equal only if BOTH have no box or the boxes are equal:
+    every way through `__eq__` that is not `return False` has one of the two"""
+    from .. import machine
+    from ..exprnorm import canon as _canon
+
+    def key(text):
+        return repr(_canon(ast.parse(text, mode="eval").body))
+    s = ctx.src(ATOMS)
+    sa_ = s.func("_AtomArrayBase.__setattr__")
+    bad, n_st = [], 0
+    for w in machine.ways(sa_.body, set(), ("__setattr__",)):
+        if w.exit is not None:
+            continue
+        for u in w.updates:
+            if "'_coord'" in u or '"_coord"' in u:
+                n_st += 1
+                if key("value.shape[-2] == self._array_length") not in w.conds:
+                    bad.append("coordinates are stored on a way that has not compared their atom axis with the array length")
+                if key("value.shape[-1] == 3") not in w.conds:
+                    bad.append("coordinates are stored on a way that has not asked for three columns")
+            if ("'_bonds', value" in u or '"_bonds", value' in u):
+                n_st += 1
+                if key("value.get_atom_count() == self._array_length") not in w.conds:
+                    bad.append("a bond list is stored on a way that has not compared its atom count with the array length")
+    ctx.need(n_st >= 2, "the stores of _coord and _bonds in _AtomArrayBase.__setattr__")
+    ctx.ob(f"{prefix}.assigned-parts-have-the-array-length", ATOMS, "_AtomArrayBase.__setattr__", f"{n_st} storing way(s)", not bad,
+           "; ".join(sorted(set(bad))) + ": coordinates / bonds, annotations and the array length disagree afterwards (for an AtomArray or for a stack)",
+           sa_.lineno)
+    eq = s.func("_AtomArrayBase.__eq__")
+    other = param_names(eq)[1]
+    k_self, k_item = key("self._box is None"), key(f"{other}._box is None")
+    k_same = {key(f"np.array_equal(self._box, {other}._box)"), key(f"np.array_equal({other}._box, self._box)")}
+    bad_eq, n_eq = [], 0
+    for w in machine.ways(eq.body, set()):
+        if w.exit == "return False":
+            continue
+        n_eq += 1
+        if not ((k_self in w.conds and k_item in w.conds) or (k_same & w.conds)):
+            bad_eq.append(sorted(c_ for c_ in w.conds if "_box" in c_))
+    ctx.need(n_eq >= 1, "the ways of _AtomArrayBase.__eq__ that can answer True")
+    ctx.ob(f"{prefix}.equality-compares-boxes-both-ways", ATOMS, "_AtomArrayBase.__eq__", f"{n_eq} way(s) that are not `return False`", not bad_eq,
+           f"a way to `True` knows about the boxes only {bad_eq[:1]}: a container without a box equals one that has a box (and not the other way round)",
+           eq.lineno)
+
+
 def run(ctx):
     array_index_rules(ctx, "R1")
+    setter_and_equality_rules(ctx, "R1")
     s = ctx.src(ATOMS)
     idx = ClassIndex(ctx, [ATOMS, BONDS, COPYABLE])
 
@@ -710,6 +759,8 @@ def run(ctx):
 
 
 MUTANTS = [
+    Mutant("eq-box-one-sided", ATOMS, "        if self._box is None:\n            if item._box is not None:\n                return False\n        else:\n            if not np.array_equal(self._box, item._box):\n                return False\n",
+           "        if self._box is not None and not np.array_equal(self._box, item._box):\n            return False\n", "R1.equality-compares-boxes-both-ways"),
     Mutant("ellipsis-index-to-subarray", ATOMS, "                return self.__getitem__(index[1])\n            else:\n                raise IndexError(\"'AtomArray' does not accept multidimensional indices\")",
            "                return self._subarray(index[1])\n            else:\n                raise IndexError(\"'AtomArray' does not accept multidimensional indices\")", "R1.array-index-dispatch"),
     Mutant("set-element-over-atom-categories", ATOMS, "                for name in self._annot:\n                    self._annot[name][index] = atom._annot[name]",
